@@ -98,6 +98,17 @@ def run(ctx, case):
                     obl.append(("retry keeps %s" % key, _eq(retry[key], failed[key])))
                 for key in ("x", "y", "weights"):
                     obl.append(("retry keeps %s" % key, same_cells(retry[key], failed[key])))
+        # the failure must not leak into the other fits of the run: every fit that is not the retry is requested exactly as in
+        # the fault-free run (in particular with weight normalisation still on)
+        for i, rc in enumerate(ref.qr.calls):
+            j = i if i <= k else i + 1
+            if j >= len(calls):
+                continue
+            fc = calls[j]
+            obl.append(("fit #%d (not the retry) is requested with the same normalize_weights as in the fault-free run" % i,
+                        fc.get("normalize_weights") == rc.get("normalize_weights")))
+            for key in KEYS:
+                obl.append(("fit #%d (not the retry) keeps %s of the fault-free run" % (i, key), _eq(fc.get(key), rc.get(key))))
     # same tables as the fault-free run
     a, b = P.tables_out(ref.res), P.tables_out(flt.res)
     obl.append(("same set of tables", sorted(a) == sorted(b)))
